@@ -202,6 +202,25 @@ NEEDS = {
     "C17-10": "non-structured run with -i and a rules file that never spells a parameter key literally (walks this.* / keys, or another case convention): the parameters are not merged",
     "C18-10": "parse_epoch of a timestamp with a non-zero UTC offset: the offset is ignored",
     "C19-10": "a property with 9-15 (17-23, ..) distinct values for one type: the last incomplete group of eight is missing from the IN list",
+    "C01-11": "a float-typed document value -0.0 compared with 0.0 (==, <, >=, in [..]): not equal / smaller",
+    "C02-11": "`not rule` / `!rule` clauses observed through --verbose / --print-json: the recorded clause status is not inverted (statuses stay correct)",
+    "C03-11": "prefix not on a unary clause over several values with different outcomes: the aggregate is negated instead of every value",
+    "C04-11": "two type blocks for one resource type where the first skips for every resource: later blocks of that type are answered SKIP",
+    "C05-11": "a document with competing key spellings validated after a document with a single spelling, in one process: another entry is reached",
+    "C06-11": "plain `test` with a misspelt expectation word: ignored, exit 0",
+    "C07-11": "a rules file without rules (comments only / empty) among the rules and a machine-readable output: a note on stdout breaks the document",
+    "C08-11": "a filter that contains a `when` block / query block / parameterised call: panic while rendering the query",
+    "C09-11": "a failing rule that also holds a block over an empty selection (`%none { .. }`): the block is listed as a failed check",
+    "C10-11": "an integer-valued number >= 2^63 in the data, reported in a failing check: value shown as 9223372036854775807",
+    "C11-11": "a wide (not deep) document with more than ~500 pending values along one path: refused by validate as nested too deep",
+    "C12-11": "-m with data files whose modification times are identical: all but one are dropped",
+    "C13-11": "strings that spell integers: ordered and compared numerically (\"9\" < \"10\", \"007\" equal to \"7\" in lists)",
+    "C14-11": "a # comment between a nested block / let / rule reference and the closing brace: parse error",
+    "C15-11": "a variable holding list values followed by an index, key or filter (%tags[0]): the inserted [*] now iterates the lists",
+    "C16-11": "structured `test` with two cases of the same name: the later one is not reported, its unmet expectation does not count",
+    "C17-11": "data on STDIN (no --data) together with -i: the STDIN document is not read",
+    "C18-11": "json_parse of a source string and of a rewritten copy of it in one evaluation: the second call gets the first structure",
+    "C19-11": "a property that is a list in one resource and a map / bool / null in its sibling: IN [[..], {..}] no longer compares whole lists",
 }
 
 
